@@ -66,6 +66,7 @@ type world struct {
 	reuseOpts     bool
 	aliasOrder    []string
 	lenPtrs       map[int]*int
+	hung          bool // an operation did not return
 	clock0        int // initial clock time of the replicas of this history
 	jsonFO        *entry.FetchOptions
 	logConc       uint // LogOptions.Concurrency of the replicas of this history (0 = default)
@@ -176,6 +177,9 @@ func (w *world) als(es []iface.IPFSLogEntry) []string {
 }
 
 func (w *world) observe(i int) {
+	if w.hung {
+		return // an earlier operation never returned: its replica is locked for ever
+	}
 	l := w.reps[i].log
 	ents := w.als(l.GetEntries().Slice())
 	sort.Strings(ents)
@@ -255,6 +259,9 @@ func (w *world) newReplica(id, writer, sk string, deny []string) int {
 }
 
 func (w *world) doAppend(i int, pc int) {
+	if w.hung {
+		return // an earlier operation never returned: its replica is locked for ever
+	}
 	l := w.reps[i].log
 	w.nextPl++
 	payload := []byte(fmt.Sprintf("p%d", w.nextPl))
@@ -285,6 +292,9 @@ func (w *world) doAppend(i int, pc int) {
 }
 
 func (w *world) doJoin(i, j, size int) {
+	if w.hung {
+		return // an earlier operation never returned: its replica is locked for ever
+	}
 	res := "ok"
 	if i != j && w.reps[i].id == w.reps[j].id {
 		a, b := w.reps[i].log, w.reps[j].log
@@ -307,17 +317,26 @@ func (w *world) doJoin(i, j, size int) {
 		}
 	}
 	w.shape += fmt.Sprintf("J%d.%d.%d;", i, j, size)
-	func() {
+	done := make(chan string, 1)
+	go func() {
+		r := "ok"
 		defer func() {
-			if r := recover(); r != nil {
-				res = "panic"
+			if rec := recover(); rec != nil {
+				r = "panic"
 			}
+			done <- r
 		}()
-		_, err := w.reps[i].log.Join(w.reps[j].log, size)
-		if err != nil {
-			res = "err"
+		if _, err := w.reps[i].log.Join(w.reps[j].log, size); err != nil {
+			r = "err"
 		}
 	}()
+	select {
+	case res = <-done:
+	case <-time.After(20 * time.Second):
+		// the merge does not return: it holds the replica's lock for ever, the history is abandoned
+		res = "hang"
+		w.hung = true
+	}
 	fmt.Fprintf(w.out, "J %d %d %d %s\n", i, j, size, res)
 	if res == "err" {
 		w.stats.RejectedJoins++
@@ -330,6 +349,9 @@ func (w *world) doJoin(i, j, size int) {
 }
 
 func (w *world) doSetIdentity(i int, writer string) {
+	if w.hung {
+		return // an earlier operation never returned: its replica is locked for ever
+	}
 	ident := w.ids.Identity(writer)
 	w.reps[i].log.SetIdentity(ident)
 	w.reps[i].writer = writer
@@ -341,6 +363,9 @@ func (w *world) doSetIdentity(i int, writer string) {
 // invalid variants (same hash, different content): no signature, corrupted signature, no key, another
 // writer's key, changed payload, or a different log id.  Joining from it exercises C06.
 func (w *world) doTamper(src int, oldest bool) {
+	if w.hung {
+		return // an earlier operation never returned: its replica is locked for ever
+	}
 	s := w.reps[src]
 	// any entry may be tampered with, heads included: since repair 17 `Join` computes its heads from the
 	// entries it holds, so a forged head object (same hash, other content) can neither replace a checked
@@ -418,6 +443,9 @@ func (w *world) doTamper(src int, oldest bool) {
 
 // doLoad builds a new replica from src with one of the four loaders.
 func (w *world) doLoad(src int, kind string, n int, writer string, conc int) {
+	if w.hung {
+		return // an earlier operation never returned: its replica is locked for ever
+	}
 	s := w.reps[src]
 	ident := w.ids.Identity(writer)
 	// one limit variable per value and history, reused by every load with that limit, as a caller
@@ -528,6 +556,9 @@ func past(l *ipfslog.IPFSLog, roots []iface.IPFSLogEntry) []iface.IPFSLogEntry {
 }
 
 func (w *world) doIter(i int) {
+	if w.hung {
+		return // an earlier operation never returned: its replica is locked for ever
+	}
 	l := w.reps[i].log
 	all := l.Values().Slice()
 	opts := &ipfslog.IteratorOptions{}
@@ -905,8 +936,11 @@ func runCore(seed int64, nHist, nOps int, out *bufio.Writer, thorough bool) *cor
 				w.doAppend(i, 0)
 				stats.OpHist["append"]++
 			}
+			if w.hung {
+				aborted = true
+			}
 			if aborted {
-				break // an iteration did not end: the replica holds its lock for ever
+				break // an operation did not end: the replica holds its lock for ever
 			}
 			w.observe(i)
 			stats.Ops++
